@@ -155,7 +155,8 @@ def close(a, b, tol=1e-9):
     return abs(a - b) <= tol * max(1.0, abs(a), abs(b))
 
 
-MUTATING_SEM = {"CvKnotRemove", "CvDegreeDecrease", "CvClean", "CvSetKnotvector", "CvFitCurve", "CvFitPoints"}
+MUTATING_SEM = {"CvKnotRemove", "CvDegreeDecrease", "CvClean", "CvSetKnotvector", "CvFitCurve", "CvFitPoints",
+                "CvFitInRational"}
 
 
 class CallTimeout(Exception):
@@ -606,6 +607,11 @@ class Replayer:
         err = S.fit_curve(C, nodes) if nodes is not None else S.fit_curve(C)
         return {"err": err, "other_unchanged": self.project(C) == snap}
 
+    def do_CvFitInRational(self, live, a):
+        S = live[a["obj"]]
+        C = self.curve_from(a["other"])
+        return {"err": S.fit_curve(C), "W_before": self.project(S)["W"]}
+
     def do_CvFitPoints(self, live, a):
         S = live[a["obj"]]
         data = self.mode.pts(a["data"])
@@ -801,6 +807,23 @@ class Replayer:
             act = {"name": name, "kv": t["pre"][a["obj"]]["U"], "nodes": a["nodes"], "err": err}
             c = b
             b = None
+        if name == "CvFitInRational":
+            if cls != "ok":
+                fails.append("fit_curve into a rational receiver raised")
+                return
+            try:
+                if rat(val["err"]) != [0, 1]:
+                    fails.append(f"source lies in the receiver's rational space but the returned error is {val['err']}")
+            except TypeError:
+                fails.append(f"error {val['err']!r} is not exact")
+            if d["W"] != val["W_before"]:
+                fails.append("the receiver's weights were changed by fit_curve of a polynomial source")
+            src = strip_curve(a["other"])
+            dv = self.observed_values("CvClean", src, {"U": [], "P": [], "W": []}, d, curve)
+            self.validator.add({"name": "SameFunction", "op": "fit_curve into rational space"}, c=src,
+                               d={"U": d["U"], "P": [x if core.fits32(x) else NAN for x in d["P"]],
+                                  "W": [x if core.fits32(x) else NAN for x in d["W"]]}, dv=dv, tag=t)
+            return
         if name == "CvFitPoints":
             if cls != "ok":
                 return
@@ -1099,6 +1122,12 @@ class Replayer:
         good = []
         for row in obs["q"]:
             u = self.mode.num(row["u"])
+            if not self.mode.exact:
+                # a query AT a knot means at the library's own (rounded) value of that knot, which was compared with the
+                # spec's value just above; a knot computed as 1.0 + 2/7 differs from float(9/7) by one ulp
+                for k in obj.knots:
+                    if abs(float(k) - float(u)) <= 1e-9 * max(1.0, abs(float(u))):
+                        u = k
             try:
                 ok = obj.valid([u])
             except Exception as e:
